@@ -19,6 +19,10 @@ for f in sorted(glob.glob(os.path.join(V, "seeded", "*", "meta.json"))):
             rep = c.get("replay_on_changed_exit"), c.get("replay_on_clean_exit")
             tag += " (no-failing-input-found)" if nf and rep[0] is None else f" (replay {rep[0]}/{rep[1]})"
         res.append(f"{p}: {tag}")
+    for p, c in (m.get("recheck") or {}).items():
+        if c.get("exit") == 1 and checks.get(p, {}).get("exit") != 1:
+            res.append(f"{p} after strengthening: CAUGHT (replay {c.get('replay_changed')}/{c.get('replay_clean')})"
+                       if not c.get("no_input") else f"{p} after strengthening: CAUGHT (no-failing-input-found)")
     what = (m.get("what") or "").replace("\n", " ").replace("|", "/")
     rows.append(f"| `{name}` | {m.get('property')} | {what[:260]} | {'yes' if ok else 'NO'}; {tests} | {'; '.join(res)} | {m.get('note','')} |")
 B, E = "<!-- SEEDED BEGIN -->", "<!-- SEEDED END -->"
